@@ -73,6 +73,11 @@ func cmdCheck(args []string) int {
 		return 2
 	}
 	id, tier := args[0], args[1]
+	if d := os.Getenv("GOSYM_DEV_REPO"); d != "" && os.Getenv("GOSYM_DEV_CHECK") == "1" {
+		// development aid only (never set by the registered commands): run the check against a scratch worktree
+		RepoDir = d
+		fmt.Fprintln(os.Stderr, "development check against", d)
+	}
 	if t := os.Getenv("VERIF_TIER"); t != "" && len(args) < 2 {
 		tier = t
 	}
